@@ -4,8 +4,9 @@ import json
 import os
 
 VERIF = os.path.dirname(os.path.dirname(os.path.abspath(__file__)))
-print("| seeded change | what it does (author's title) | needs to manifest | check | result at the quick tier | oracle that fired |")
-print("|---|---|---|---|---|---|")
+print("| seeded change | what it is (author's title) | check: result at the quick tier (runs) | oracle that fired |")
+print("|---|---|---|---|")
+tot = caught = 0
 for p in sorted(glob.glob(os.path.join(VERIF, "seeded", "*", "meta.json"))):
     m = json.load(open(p))
     name = os.path.basename(os.path.dirname(p))
@@ -15,7 +16,13 @@ for p in sorted(glob.glob(os.path.join(VERIF, "seeded", "*", "meta.json"))):
             continue
         det = (v.get("detail") or [""])[0]
         orc = det.split("signature=")[0].replace("oracle=", "").strip() if det else ""
-        need = str(m.get("needs_to_manifest", "")).replace("\n", " ").replace("|", "/")
-        if len(need) > 230:
-            need = need[:227] + "..."
-        print("| %s | %s | %s | %s | %s (%ss) | %s |" % (name, str(m.get("title", "")).replace("|", "/")[:160], need, k[6:], v.get("status"), v.get("wall_s"), orc))
+        summ = (v.get("summary") or [""])[0]
+        runs = summ.split(" ")[0].replace("runs=", "") if summ.startswith("runs=") else "?"
+        title = str(m.get("title", "")).replace("|", "/").replace("\n", " ")
+        if len(title) > 150:
+            title = title[:147] + "..."
+        tot += 1
+        caught += v.get("status") == "CAUGHT"
+        print("| %s | %s | %s: %s (%s) | %s |" % (name, title, k[6:], v.get("status"), runs, orc))
+print()
+print("%d of %d caught at the quick tier." % (caught, tot))
